@@ -156,6 +156,7 @@ def unit_late_classes():
             try:
                 with open(os.path.join(tmp, "p.py"), "w") as f: f.write("from cutplace import checks\nclass FolderCheck(checks.AbstractCheck):\n    pass\n")
                 steps = {"cid": "interface.Cid()\n", "plugins": "interface.import_plugins(%r)\n" % tmp,
+                         "derive": "class LateFieldFormat(fields.TextFieldFormat):\n    pass\nclass LateCheck(checks.IsUniqueCheck):\n    pass\n",        # user classes built on the built-in ones
                          "define": "class LateFieldFormat(fields.AbstractFieldFormat):\n    def __init__(self, n, e, l, r, d):\n        super().__init__(n, e, l, r, d, empty_value='')\n    def validated_value(self, v):\n        return v\n"
                                    "class LateCheck(checks.AbstractCheck):\n    pass\n"}
                 code = ("import sys; sys.path.insert(0, %r)\nfrom cutplace import interface, fields, checks\n" % os.environ.get("PYVC_REPO", "/repo")) + "".join(steps[o] for o in order)
@@ -166,9 +167,29 @@ def unit_late_classes():
                 return None if p.stdout.strip().endswith(want) else {"expected": want, "observed": (p.stdout + p.stderr)[-400:]}
             finally:
                 shutil.rmtree(tmp, ignore_errors=True)
-        orders = [("define",), ("cid", "define"), ("cid", "define", "cid"), ("plugins", "define"), ("cid", "plugins", "define"), ("define", "cid", "plugins"), ("cid", "plugins", "cid", "define", "cid")]
+        orders = [("derive",), ("cid", "derive"), ("define",), ("cid", "define"), ("cid", "define", "cid"), ("plugins", "define"), ("cid", "plugins", "define"), ("define", "cid", "plugins"), ("cid", "plugins", "cid", "define", "cid")]
         r3 = sweep("C20/protocol/user classes resolve by class name whenever they are defined (before / after other Cids, after a plug-in import)", orders, late_check, "bounded",
-                   "7 orders of {create a Cid, import a plug-in folder, define user classes} before the CID that names them is read (one subprocess each)", describe=lambda o: {"order": list(o)},
+                   "9 orders of {create a Cid, import a plug-in folder, define user classes (directly on the abstract base classes, or derived from a built-in class)} before the CID that names them is read (one subprocess each)", describe=lambda o: {"order": list(o)},
                    function="interface.Cid.__init__ + _create_name_to_class_map + import_plugins", unit="C20.late-classes")
-        return [r3]
+        def close_once_check(kind):
+            import io
+            from cutplace import interface, validio, checks, errors
+            log = []
+            cls = type("CloseOnce%sCheck" % kind.title(), (checks.AbstractCheck,), {
+                "check_at_end": lambda self, location: (log.append(("end", self.description)), (_ for _ in ()).throw(errors.CheckError("no", location)) if self.description == "fails" else None)[-1],
+                "cleanup": lambda self: log.append(("cleanup", self.description))})
+            cid = interface.Cid(); cid.read("c", [["d", "format", "delimited"], ["f", "a"], ["c", "passes", "CloseOnce%s" % kind.title(), "a"], ["c", "fails", "CloseOnce%s" % kind.title(), "a"]])
+            try:
+                if kind == "reader":
+                    with validio.Reader(cid, io.StringIO("1\n")) as r:
+                        list(r.rows()); r.close()
+                else:
+                    with validio.Writer(cid, io.StringIO()) as w_:
+                        w_.write_row(["1"]); w_.close()
+            except errors.CheckError: pass
+            want = [("end", "passes"), ("end", "fails"), ("cleanup", "passes"), ("cleanup", "fails")]
+            return None if log == want else {"expected": "every check asked for its verdict once and cleaned up once: %r" % want, "observed": log}
+        r4 = sweep("C20/protocol/an explicit close() that fails inside a with block does not ask the checks a second time", ["reader", "writer"], close_once_check, "bounded", "Reader and Writer, two recording checks, the second failing at the end",
+                   describe=lambda k: {"validator": k}, function="validio.BaseValidator.close / __exit__", unit="C20.late-classes")
+        return [r3, r4]
     return NativeUnit("C20.late-classes", "bounded: user classes resolve by class name whenever they are defined (before / after other Cids, after a plug-in import)", ["C20", "C09", "C17"], run, kind="bounded")
